@@ -546,6 +546,30 @@ void Router::processActions(void)
             }
         }
 
+        if (!isMove)
+        {
+            // End point updates queued in this transaction may attach a
+            // connector to the obstacle that is about to be freed.  They
+            // are processed after this loop, so turn them into ordinary
+            // end points at the obstacle's position now.
+            for (ActionInfoList::iterator act = actionList.begin();
+                    act != actionList.end(); ++act)
+            {
+                if (act->type != ConnChange)
+                {
+                    continue;
+                }
+                for (ConnUpdateList::iterator upd = act->conns.begin();
+                        upd != act->conns.end(); ++upd)
+                {
+                    if (upd->second.m_anchor_obj == obstacle)
+                    {
+                        upd->second = ConnEnd(obstacle->position());
+                    }
+                }
+            }
+        }
+
         // Ignore this shape for visibility.
         // XXX: We don't really need to do this if we're not using Partial
         //      Feedback.  Without this the blocked edges still route
